@@ -1400,18 +1400,25 @@ pub fn run_shape(ctx: &mut Ctx, case: &Value) {
     let calls = shapes::take_log();
     let nconv = calls.iter().filter(|e| e["ev"] == json!("conv")).count();
     let nfin = calls.iter().filter(|e| e["ev"] == json!("finish")).count();
-    let exp = &case["out"];
+    // the specification gives the SET of admitted outcomes (one element unless the input has several
+    // independent defects) and the admitted numbers of callbacks
+    let outs = case["outs"].as_array().cloned().unwrap_or_default();
+    let exp = &case["outs"];
+    let admitted = outs.iter().any(|o| o == &obs);
     // the only panic the model allows here is Display with an invalid type string
     let display_panic = obs["str"].get("panic").is_some();
+    let display_panic_admitted = outs.iter().any(|o| o["v"] == obs["v"] && o["str"].get("panic").is_some());
     ctx.check("C06", "panics only where documented (Display with an invalid user type string)", "TestShape",
-              obs.get("panic").is_none() && display_panic == exp["str"].get("panic").is_some(), exp, &obs);
+              obs.get("panic").is_none() && (!display_panic || display_panic_admitted), exp, &obs);
     ctx.check("C14", "outcome with a user-supplied shape (errors returned unchanged, hook's parts reported, generic checks after)", "TestShape",
-              &obs == exp, exp, &obs);
-    ctx.check("C14", "conversion called as often as the protocol allows", "TestShape", json!(nconv) == case["nconv"], &case["nconv"], &json!(nconv));
-    ctx.check("C14", "finish hook called as often as the protocol allows", "TestShape", json!(nfin) == case["nfin"], &case["nfin"], &json!(nfin));
+              admitted, exp, &obs);
+    let among = |xs: &Value, n: usize| xs.as_array().map(|a| a.iter().any(|x| x == &json!(n))).unwrap_or(false);
+    ctx.check("C14", "conversion called as often as the protocol allows", "TestShape", among(&case["nconv"], nconv), &case["nconv"], &json!(nconv));
+    ctx.check("C14", "finish hook called as often as the protocol allows", "TestShape", among(&case["nfin"], nfin), &case["nfin"], &json!(nfin));
     if let Some(p) = &p {
         if !display_panic {
-            universal_noparse(ctx, "TestShape", p, &obs, &[&exp["v"]], "shape");
+            let known: Vec<&Value> = outs.iter().filter(|o| o["ok"] == json!(true)).map(|o| &o["v"]).collect();
+            universal_noparse(ctx, "TestShape", p, &obs, &known, "shape");
         }
         let ex = quals_extras(p.qualifiers());
         let all = ex.as_object().map(|m| m.values().all(|b| b == &Value::Bool(true))).unwrap_or(false);
